@@ -4,7 +4,8 @@ import net, gens
 from runner import Script, Cfg
 
 ID = "C02"
-THEOREMS = ["C02_scope_and_identity", "C02_out_of_scope_is_inert"]
+THEOREMS = ["C02_scope_and_identity", "C02_out_of_scope_is_inert", "C02_arp_reply_identity", "C02_ip_reply_identity",
+            "C02_na_reply_identity"]
 MONITORS = ["C02"]
 RULE = ("destination-MAC grid around every authorised pattern (each single-bit flip), self-IP sets of size 0-3 of both "
         "families with member / non-member destinations, denied and non-denied sources, all 65536 EtherTypes and all "
